@@ -12,8 +12,24 @@ from props import register
 def pred_game(rng, kind=None, stratum=None, n=None, maxsize=8):
     kind = kind or rng.choice(KINDS)
     beta, kappa, tau = gen_config(rng)
-    stratum = stratum or rng.choice(["typical", "typical", "wide", "corners", "mismatch", "identical", "equalsize", "tiny-sigma", "equal-ordinal"])
-    if stratum == "equal-ordinal":
+    stratum = stratum or rng.choice(["typical", "typical", "wide", "corners", "mismatch", "identical", "equalsize", "tiny-sigma", "equal-ordinal", "near-identical"])
+    if stratum == "near-identical":
+        # teams that differ by a few ulps in one mu: their probabilities may round to the same double
+        n = n or rng.randint(3, 4)
+        beta = core.DEFAULTS["beta"]
+        m0 = rng.choice([1.0, 25.0, 3.0])
+        t = [(m0, rng.choice([25.0 / 3, 2.0]))]
+        teams = []
+        for i in range(n):
+            if i < 2:
+                m = m0
+                for _ in range(i * rng.randint(1, 16)):
+                    m = math.nextafter(m, math.inf)
+                teams.append([(m, t[0][1])])
+            else:
+                teams.append([(rng.choice([25.0, 18.0, 30.0]), 25.0 / 3)])
+        rng.shuffle(teams)
+    elif stratum == "equal-ordinal":
         # teams whose players have slot-wise equal ordinals mu - 3 sigma but different (mu, sigma), exactly representable
         n = n or rng.randint(3, 5)
         sz = rng.randint(1, 2)
@@ -76,7 +92,7 @@ def impl_pred(g, cls=None, probe=None):
                     break
     if probe and kind_cls is not None:
         PRED_STATS["interleaved"] += 1
-        state = {"n": 0, "at": 2 + h // 11 % 5, "busy": False}
+        state = {"n": 0, "at": 1 + h // 11 % 2, "busy": False}
         other = [[model.rating(mu=m * 0.5 + g["beta"], sigma=s * 1.5 + 0.01 * g["beta"]) for (m, s) in t] for t in reversed(g["teams"])]
         other = other + [other[0][:1]]
 
@@ -88,7 +104,6 @@ def impl_pred(g, cls=None, probe=None):
                     state["busy"] = True
                     model.predict_win(other); model.predict_draw(other); model.predict_rank(other)
                     state["busy"] = False
-                    state["at"] += 7
                 return self.__dict__["_mu"]
 
             @mu.setter
@@ -100,6 +115,12 @@ def impl_pred(g, cls=None, probe=None):
         pr = Probe(old.mu, old.sigma, old.name)
         pr.id = old.id
         t0[k] = pr
+        out = []
+        for fn in (model.predict_win, model.predict_draw, model.predict_rank):
+            # the nested prediction runs at the first or second read of the probe's mu inside EACH of the three calls
+            state["n"] = 0
+            out.append(fn(teams))
+        return tuple(out)
     return model.predict_win(teams), model.predict_draw(teams), model.predict_rank(teams)
 
 
@@ -174,6 +195,36 @@ def reconfigure_sequence(res, g, rng, prop, kind_on_mismatch="property"):
             g = g2
     except Exception as e:  # noqa: BLE001
         res.fail("property", "%s: a predict operation raised %s after re-tuning the model in place" % (prop, type(e).__name__), inp)
+
+
+def inplace_sequence(res, g, rng, prop):
+    """what a league does: the same rating objects are rated (mutated in place) or assigned to, then predicted
+    with again on the same model; every prediction must equal the one for fresh objects holding the same values"""
+    inp = dict(type="pred", game=g)
+    try:
+        model = build_model(g)
+        objs = build_teams(model, g)
+        model.predict_rank(objs); model.predict_draw(objs)
+        if rng.random() < 0.6:
+            model.rate(objs, ranks=list(range(len(objs))))
+        else:
+            p = objs[rng.randrange(len(objs))][0]
+            p.sigma = p.sigma * 0.5 + 0.1 * g["beta"]
+            p.mu = p.mu + g["beta"]
+        got = (model.predict_win(objs), model.predict_draw(objs), model.predict_rank(objs))
+        g2 = dict(g); g2["teams"] = [[(p.mu, p.sigma) for p in t] for t in objs]; g2.pop("alias", None)
+        want = impl_pred(g2, probe=False)
+        res.count("in_place_then_predict")
+        if got != want:
+            which = [n_ for n_, a, b in zip(("predict_win", "predict_draw", "predict_rank"), got, want) if a != b]
+            res.fail("property", "%s: after the rating objects were updated in place, %s on the same objects differs from fresh objects with the same values: %r vs %r" % (
+                prop, "/".join(which), got, want), inp)
+        elif len(objs) >= 3:
+            tot = math.fsum(p for (_, p) in got[2]) + got[1]
+            if abs(tot - 1) > 1e-9:
+                res.fail("property", "%s: after an in-place update predict_rank + predict_draw = %r" % (prop, tot), inp)
+    except Exception as e:  # noqa: BLE001
+        res.fail("property", "%s: a predict operation raised %s after an in-place update" % (prop, type(e).__name__), inp)
 
 
 # =============================================================================== C09
@@ -352,6 +403,8 @@ def c10(res):
         for sg in (1e-4, 1e-8, 0.0, 1.0):
             g = make_game(kind, [[(25.0, sg)], [(25.0, sg)]])
             res.case(g); c10_one(res, g, rng); games.append(g)
+    for g in games[:: max(1, len(games) // 150)]:
+        inplace_sequence(res, g, rng, "C10")
     corr_pred(res, games, "correspondence", "C10", which=("draw",))
     res.rule = ("predict_draw on the implementation: range [0,1] (1e-12 slack), independence of team and player order, two teams: "
                 "non-increasing along a ladder of widening gaps, n teams: equalised copy not lower; incl. N=2 with sigma->0 and teams of up "
@@ -429,6 +482,8 @@ def c11(res):
         res.case(g); describe(res, g)
         c11_one(res, g)
         games.append(g)
+    for g in games[:: max(1, len(games) // 150)]:
+        inplace_sequence(res, g, rng, "C11")
     corr_pred(res, games, "correspondence", "C11", which=("rank", "draw"))
     res.rule = ("predict_rank on the implementation: one pair per team, probabilities in [0,1], integer ranks in 1..n consistent with the "
                 "probabilities (strict, ties, best = 1), n>=3: probabilities + predict_draw = 1 (1e-9); incl. exactly identical teams; "
@@ -455,6 +510,7 @@ def c12(res):
     corr_pred(res, games, "property", "C12 closed forms")
     for g in games[:: max(1, len(games) // 120)]:
         reconfigure_sequence(res, g, rng, "C12")
+        inplace_sequence(res, g, rng, "C12")
     corr_pred(res, games[:: max(1, len(games) // size(res, 150, 60))], "property", "C12 closed forms (192-bit evaluation)", hp=True)
     res.rule = ("predict_win / predict_draw / predict_rank on the implementation against the Lean model evaluated at Float with its own "
                 "erfc-based Phi and bisection/Newton Phi^-1 (independent of CPython's NormalDist), 1e-9 absolute; the model is proved equal "
